@@ -588,6 +588,16 @@ class Leaf(DataClassDictMixin):
     s: str = "x"
     o: Optional[datetime.date] = None
 
+@dataclass(slots=True)
+class SlotsReq:
+    a: int
+    b: Optional[str] = None
+
+@dataclass(slots=True)
+class SlotsReqM(DataClassDictMixin):
+    a: int
+    l: List[int] = field(default_factory=list)
+
 @dataclass
 class Aliased(DataClassDictMixin):
     a: int = field(metadata={"alias": "meta_a"})
@@ -701,7 +711,7 @@ SCHEMA_TYPES = [
     "Dict[str, int]", "dict", "Dict[int, str]", "Dict[E1, int]", "Mapping[str, Optional[int]]", "collections.OrderedDict[str, int]", "collections.ChainMap[str, int]",
     "collections.Counter[str]", "DefaultDict[str, List[int]]", "NTS", "TDS", "List[NTS]", "Dict[str, TDS]", "NTI", "Annotated[int, 'm']",
     "Leaf", "Aliased", "Outer", "List[Leaf]", "Optional[Leaf]", "Dict[str, Outer]", "Gen[int]", "TwoGen", "TwoSame", "Tuple[Leaf, Leaf]", "Union[Leaf, Aliased]",
-    "NtOptDictEngList", "NtOptListEngDict", "NtEngineOnly", "NtDialectDict", "NtItemEngine", "SerOverride", "AnnGen",
+    "SlotsReq", "SlotsReqM", "NtOptDictEngList", "NtOptListEngDict", "NtEngineOnly", "NtDialectDict", "NtItemEngine", "SerOverride", "AnnGen",
     "Optional[Any]", "Dict[str, Union[int, Any]]", "List[Optional[Any]]", "Union[str, Any, None]",
     # values that are == in Python but distinct JSON values
     "Literal[1, True]", "Literal[False, 0]", "Literal[True, 1, 'a', 0]", "Literal[0, False, None]", "Literal[1.0, 1]",
